@@ -253,15 +253,25 @@ func ruleNotationSwitch(w *World, r *RuleResult) {
 	}
 	// plain notation = the fmtF call under the g/G case
 	var plain *ssa.Call
+	delegated := false
 	for _, c := range w.callsTo(f, "fmtF") {
 		for _, g := range guardsAt(c.Block()) {
-			if strings.Contains(w.exprOf(f, g.Cond).String(), "d.Exponent <= 0") {
+			if strings.Contains(w.exprOf(f, g.Cond).String(), ".Exponent <= 0") {
 				plain = c
+			}
+			// the decision was moved into a predicate helper (useFixedNotation(d, n) bool)
+			if hc, isCall := g.Cond.(*ssa.Call); isCall {
+				if h := callee(hc); h != nil && w.inPkg(h) && (h.Object() == nil || !h.Object().Exported()) && h.Signature.Recv() == nil {
+					delegated = true
+				}
 			}
 		}
 	}
 	key := "(*Decimal).Append | plain notation iff Exponent <= 0 ∧ adj >= -6"
-	if plain == nil {
+	if plain == nil && delegated {
+		r.ok(key, w.pos(f.Pos()), "the notation decision is delegated to a predicate helper: this shape is not decided", false)
+		r.ok("(*Decimal).Append | zero special case bounds", w.pos(f.Pos()), "not decided for this shape", false)
+	} else if plain == nil {
 		r.bad(key, w.pos(f.Pos()), "no fmtF call guarded by d.Exponent <= 0")
 	} else {
 		var conds []string
@@ -273,10 +283,10 @@ func ruleNotationSwitch(w *World, r *RuleResult) {
 		sort.Strings(conds)
 		hasExp, hasAdj := false, false
 		for _, c := range conds {
-			if c == "(d.Exponent <= 0)" {
+			if strings.HasSuffix(c, ".Exponent <= 0)") {
 				hasExp = true
 			}
-			if strings.HasSuffix(c, ">= -6)") && strings.Contains(c, "d.Exponent") {
+			if strings.HasSuffix(c, ">= -6)") && strings.Contains(c, ".Exponent") {
 				hasAdj = true
 			}
 		}
@@ -297,11 +307,13 @@ func ruleNotationSwitch(w *World, r *RuleResult) {
 			}
 		}
 		j := strings.Join(conds, " ∧ ")
-		if strings.Contains(j, "(*BigInt).BitLen(&d.Coeff) == 0") && strings.Contains(j, "(d.Exponent >= -2000)") && strings.Contains(j, "(d.Exponent < 0)") {
+		if strings.Contains(j, "(*BigInt).BitLen(&") && strings.Contains(j, ".Coeff) == 0") && strings.Contains(j, ".Exponent >= -2000)") && strings.Contains(j, ".Exponent < 0)") {
 			okZero = true
 		}
 	}
-	if okZero {
+	if plain == nil && delegated {
+		// reported above
+	} else if okZero {
 		r.ok(key, w.pos(f.Pos()), "digit length is padded only under BitLen()==0 ∧ Exponent >= -2000 ∧ Exponent < 0", true)
 	} else {
 		r.bad(key, w.pos(f.Pos()), "the documented zero exception (exponent in [-2000,-1]) is no longer guarded by BitLen()==0 ∧ -2000 <= Exponent < 0")
